@@ -11,7 +11,8 @@ stream `trees` (C04): typed plain-data trees x the five registered formats x the
                codec (the library codec law is an assumption), so this compares the wrapper only
  * reg       : ConfigFormat.register / get / initialize_registry histories on an emptied registry
  * regtable  : formats.FORMATS of the running package vs Formats.v `builtin_formats`
- * probe     : out-of-domain inputs: must raise or keep every type (oracle only)
+ * probe     : out-of-domain inputs (outside the property's quantifier): only counted in the input distribution
+               as ood:<fmt>:raised / preserved / value-changed / silently-changed, never an oracle message
 
 The oracle is independent of the model: decoded == original with exact types (NaN ~ NaN, dict order
 ignored only for YAML), every format and every option value gives the same tree, a wrong root tag raises
@@ -630,10 +631,7 @@ def oracle(c, obs):
                 bad.append("yaml root_key dumps=%r loads=%r: unexpected result %r" % (dk, lk, res))
             return bad
         bad += check_decoded(c, res, "%s %r" % (c["fmt"], c["dopts"]), ordered=c["fmt"] != "yaml")
-    elif k == "probe":
-        st, val = c["_probe"]
-        if st == "ok" and not same_types(c["tree"], val):
-            bad.append("out-of-domain tree %r was silently decoded with different types by %s: %r" % (c["tree"], c["fmt"], val))
+    # out-of-domain probes are outside the property's quantifier: never an oracle message, only counted (see tags)
     elif k == "regtable":
         for n, clsname, mod in c["_table"]:
             if not mod.startswith("cincoconfig.formats.") or CLASS_IDS.get(clsname) is None:
@@ -688,15 +686,6 @@ def reg_oracle(c, obs):
     return bad
 
 
-def classify(c, msg):
-    # open finding F44: ET.Element accepts any tag; a key containing '>' is written as <a>b ...> and re-read as
-    # element <a> with text: the document loads, with another key and a str in place of the value
-    if c["kind"] == "probe" and c["fmt"] == "xml" and msg.startswith("out-of-domain tree") and \
-            any(isinstance(v, dict) and any(isinstance(k, str) and ">" in k for k in v) for v in walk(c["tree"])):
-        return "F44"
-    return None
-
-
 def kinds(tree):
     s = set()
     for v in walk(tree):
@@ -736,7 +725,9 @@ def tags(c, obs):
         t.add("fromelem:type=%s" % c["elem"][1].get("type"))
         t.add("fromelem:forced=%s" % c["forced"])
     elif k == "probe":
-        t.add("probe:%s:%s" % (c["fmt"], c.get("_probe", ("?",))[0]))
+        st, val = c.get("_probe", ("?", None))
+        t.add("ood:%s:%s" % (c["fmt"], "raised" if st == "raised" else "preserved" if teq(val, c["tree"], ordered=False) else
+                             "value-changed" if same_types(c["tree"], val) else "silently-changed"))
     elif k == "reg":
         t.add("reg:pre-init-register" if c["ops"] and c["ops"][0][0] == "register" else "reg:other")
     return t
